@@ -127,6 +127,32 @@ def check(tr):
                     bad("R4.time_stamp", "trial %s run %d level %s: st_tuner_time=%r, start %r + delay_start %r + elapsed %r + delay %r = %r" % (
                         t, run, r["epoch"], ts, st["tk"], d["start"], r[ELAPSED], d["on_trial_result"], exp), e["s"])
                     break
+    # ---- R2 (delivered stream): a resumed trial continues with results of its new run only -----------------
+    sn_run = {}
+    for (t, run), pl in plans.items():
+        for r in pl["results"]:
+            sn_run[r["sn"]] = (t, run, int(r["epoch"]))
+    cur = {}
+    last_level = {}
+    evs = sorted([("start", e["s"], e) for e in starts.values()] +
+                 [("res", c["s0"], c) for c in tr.sched if c["m"] == "on_trial_result" and c["result"] and "sn" in c["result"]],
+                 key=lambda x: x[1])
+    for kind_, _, e in evs:
+        if kind_ == "start":
+            cur[e["trial"]] = e["run"]
+            last_level.pop(e["trial"], None)
+            continue
+        t = e["trial"]
+        info = sn_run.get(e["result"]["sn"])
+        if info is None:
+            continue
+        _, run, lvl = info
+        if cur.get(t) is not None and run != cur[t]:
+            bad("R2.result_of_old_run", "trial %s: result for level %d of run %d delivered while run %d is under way" % (t, lvl, run, cur[t]),
+                e["s0"])
+        elif t in last_level and lvl != last_level[t] + 1:
+            bad("R2.delivered_levels", "trial %s run %d: level %d delivered after level %d" % (t, run, lvl, last_level[t]), e["s0"])
+        last_level[t] = lvl
     # ---- R5 the simulated clock never runs backwards --------------------------------------------------------
     last = None
     for e in tr.events:
